@@ -29,6 +29,8 @@ structure World where
 inductive Act
   | readClock (w : Nat) (now : Nat)    -- datetime.now() + strftime
   | step (w : Nat)                     -- the next file-system operation of writer w
+  | failWrite (w : Nat) (part : Bytes) -- writing fails (disk full, size limit) after `part` reached the file: the call
+                                       -- raises and the writer never finishes; the file it created stays its own
   deriving DecidableEq, Repr
 
 def setWriter (W : World) (w : Nat) (x : Writer) : World :=
@@ -49,6 +51,10 @@ def act (W : World) : Act → World
       | none => setWriter (setFile W (s, k) []) w { W.ws w with pc := .created (s, k) }    -- O_CREAT|O_EXCL succeeded
       | some _ => setWriter W w { W.ws w with pc := .named s (k + 1) }                     -- FileExistsError
     | .created n => setWriter (setFile W n (W.ws w).msg) w { W.ws w with pc := .done n }
+    | _ => W
+  | .failWrite w part =>
+    match (W.ws w).pc with
+    | .created n => setFile W n part
     | _ => W
 
 def run (W : World) (acts : List Act) : World := acts.foldl act W
